@@ -2,13 +2,15 @@ module verifharness
 
 go 1.19
 
-require sigs.k8s.io/structured-merge-diff/v6 v6.0.0
+require (
+	sigs.k8s.io/structured-merge-diff/v6 v6.0.0
+	sigs.k8s.io/yaml v1.4.0
+)
 
 require (
 	github.com/json-iterator/go v1.1.12 // indirect
 	github.com/modern-go/concurrent v0.0.0-20180306012644-bacd9c7ef1dd // indirect
 	github.com/modern-go/reflect2 v1.0.2 // indirect
-	sigs.k8s.io/yaml v1.4.0 // indirect
 )
 
 replace sigs.k8s.io/structured-merge-diff/v6 => /repo
